@@ -312,7 +312,15 @@ impl<T: Qcow2IoOps> Qcow2Dev<T> {
                 // flush mapping table in-place update
                 self.flush_table(&*l2_table, 0, l2_table.byte_size())
                     .await?;
-                l2_handle.set_dirty(false);
+
+                // If the cluster holding this slice is a new one that has not
+                // been zeroed yet, flushing any slice of it will zero the whole
+                // cluster first and wipe what was just written: keep the slice
+                // dirty so that this flush writes it again.
+                let l2_cluster = l2_table.get_offset().unwrap() >> info.cluster_bits();
+                if !self.cluster_is_new(l2_cluster).await {
+                    l2_handle.set_dirty(false);
+                }
 
                 // release l2 table, so that this new mapping can be flushed
                 // to disk
